@@ -20,6 +20,7 @@ ASSUMPTIONS = [
     "set_y is enabled only for Dx=Dy roots: with Dx!=Dy known finding F3 (C10) would propagate into every successor state",
     "approximate-conditional transitions are opaque for the model (it adopts the exposed mu, Sigma); their cache invariants are still checked",
     "depth: see coverage.bounds / counters max_depth_completed; a deadline cap is reported as exhaustive=false",
+    "states whose model precision / noise covariance has condition number > 1e4 are outside the properties' stated domain: they are counted (out_of_domain_states) and neither judged nor expanded",
 ]
 BOUNDS = {
     "quick": dict(D=[2], rcap=4, full_alphabet_depth=2, reduced_alphabet_depth=3, vi=[0, 100], D_shallow=[1, 3], shallow_depth=1),
